@@ -54,7 +54,8 @@ Allowed(c) == CASE c = "apitoken" -> {"ES256", "ES384", "ES512", "EdDSA", "RS512
 (*  sigok  the signature value is genuine for (signer, label) over the     *)
 (*         canonical encoding of the header/payload the token now carries  *)
 (*  keyref asvalid | other-party | attacker-known   (kid / verif. method)  *)
-(*  keyhdr asvalid | jwk-attacker | jwk-private | jku | x5u | x5c          *)
+(*  keyhdr asvalid | jwk-attacker | jwk-private | jwk-private-own | jku |  *)
+(*         x5u | x5c                                                       *)
 (*  enc    canonical | {h,p,s}-pad | {h,p,s}-noncanon | s-stdalpha |       *)
 (*         extra-seg                                                       *)
 (***************************************************************************)
@@ -78,6 +79,8 @@ VTab ==
     ("inject-x5u" :> [D EXCEPT !.signer = "attacker", !.keyhdr = "x5u"]) @@
     ("inject-x5c" :> [D EXCEPT !.signer = "attacker", !.keyhdr = "x5c"]) @@
     ("embedded-private-key" :> [D EXCEPT !.signer = "attacker", !.keyhdr = "jwk-private"]) @@
+    \* self-keyed tokens: the legitimate signer embeds its own PRIVATE key instead of the public one
+    ("own-private-key-embedded" :> [D EXCEPT !.keyhdr = "jwk-private-own"]) @@
     ("kid-other-party" :> [D EXCEPT !.keyref = "other-party", !.sigok = FALSE]) @@
     ("kid-attacker-resigned" :> [D EXCEPT !.keyref = "attacker-known", !.signer = "attacker"]) @@
     ("key-swapped" :> [D EXCEPT !.signer = "attacker"]) @@
@@ -95,6 +98,7 @@ Variants == DOMAIN VTab
 \* does the variant exist for this consumer / key family (mirrors the concretiser)
 Applicable(c, f, v) ==
     CASE v \in {"alg-sibling", "legit-alg-mismatch"} -> f # "ed25519"
+      [] v = "own-private-key-embedded" -> c \in SelfKeyed
       [] v = "kid-other-party" -> c \notin SelfKeyed
       [] v = "kid-attacker-resigned" -> c \notin SelfKeyed \cup {"apitoken"}   \* the attacker's key is not in authorized_keys
       [] v \in {"pad-p", "noncanon-p", "sweep-p"} -> c # "ldproof"                         \* detached payload
@@ -146,11 +150,11 @@ Alg == /\ phase = "alg"
 SelectKey ==
     /\ phase = "key"
     /\ CASE C = "dpop" ->
-              IF A.keyhdr = "jwk-private" THEN Reject
+              IF A.keyhdr \in {"jwk-private", "jwk-private-own"} THEN Reject      \* jwkIsPrivateKey
               ELSE /\ key' = (IF A.keyhdr = "jwk-attacker" THEN "attacker" ELSE "legit")
                    /\ phase' = "verify" /\ UNCHANGED <<cs, verdict>>
          [] C = "dagtx-jwk" ->
-              IF A.keyhdr = "jwk-private" /\ ~DagAcceptsPrivateJWK THEN Reject
+              IF A.keyhdr \in {"jwk-private", "jwk-private-own"} /\ ~DagAcceptsPrivateJWK THEN Reject
               ELSE /\ key' = (IF A.keyhdr \in {"jwk-attacker", "jwk-private"} THEN "attacker" ELSE "legit")
                    /\ phase' = "verify" /\ UNCHANGED <<cs, verdict>>
          [] C = "dagtx-kid" ->
@@ -195,7 +199,7 @@ Sound(c, f, a) ==
     /\ LabelAllowed(c, f, a) /\ a.alg \notin {"none", "mac"}        \* allowed asymmetric algorithm
     /\ Fits(f, a)                                                   \* ... that fits the verification key
     /\ a.sigok /\ a.enc \notin HPEnc                                \* verified over the exact bytes received
-    /\ a.keyhdr # "jwk-private"                                     \* embedded private keys are refused
+    /\ a.keyhdr \notin {"jwk-private", "jwk-private-own"}          \* embedded private keys are refused
     /\ \/ a.signer = "legit"                                        \* key taken from where the protocol says
        \/ a.signer = "attacker" /\ c \in {"vpjwt", "dagtx-kid"} /\ a.keyref = "attacker-known"   \* = a genuine token of that party
        \/ a.signer = "attacker" /\ c = "dagtx-jwk" /\ a.keyhdr = "jwk-attacker"                  \* = a genuine self-keyed tx
